@@ -155,7 +155,7 @@ func lexSpec(src string) ([]tok, error) {
 			if matched {
 				continue
 			}
-			if strings.ContainsRune("+-*/%<>!()[].,?:", c) {
+			if strings.ContainsRune("+-*/%<>!()[].,?:{}", c) {
 				ts = append(ts, tok{"op", string(c)})
 				i++
 				continue
@@ -356,11 +356,26 @@ func (p *sparser) unary() (*SX, error) {
 		if err := p.expectOp("::"); err != nil {
 			return nil, err
 		}
+		var trig []*SX
+		if p.isOp("{") {
+			p.next()
+			for !p.isOp("}") {
+				tx, err := p.expr(0)
+				if err != nil {
+					return nil, err
+				}
+				trig = append(trig, tx)
+				if p.isOp(",") {
+					p.next()
+				}
+			}
+			p.next()
+		}
 		body, err := p.expr(0)
 		if err != nil {
 			return nil, err
 		}
-		return &SX{Op: t.s, Vars: vs, Args: []*SX{body}}, nil
+		return &SX{Op: t.s, Vars: vs, Args: append([]*SX{body}, trig...)}, nil
 	}
 	return p.postfix()
 }
